@@ -204,8 +204,9 @@ pub fn run(rep: &mut Report) {
                 });
             }
         }
-        let per = tier.pick(40_000, 400_000);
         for n in 7..=32u32 {
+            // the wide types have the needles (lone sticky bits 60+ places down): twice the cases from N = 20 up
+            let per = tier.pick(if n >= 20 { 80_000 } else { 40_000 }, 400_000);
             rep.generated(&format!("PxE{}<{}> generated triples, all ops", es, n), per, move || triples(n, es), move |&(a, b, c), l| {
                 for op in 0..13 {
                     if n <= 8 && op < 8 {
